@@ -52,6 +52,24 @@ def run(rep, work, tier, seed, only=None):
                              'logical_errors': o['le'], 'is_success': o['ok']})
         for kind, c in rec['_obs']['kinds'].items():
             rep.count(kind, c)
+        ob = rec['_obs']
+        if ob.get('batch_error') or ('batch_le' in ob and ob['batch_le'] != [o['le'] for o in ob['cases']]):
+            bad = next((i for i, o in enumerate(ob['cases']) if ob.get('batch_le', [None] * 10**6)[i] != o['le']), 0) \
+                if 'batch_le' in ob else 0
+            rep.violation(dict(key, site='logical_errors-batch'),
+                          '%s: logical_errors on a 2-D stack of %d errors %s' % (
+                              rec['tag'], len(ob['cases']),
+                              ob.get('batch_error') or ('gives row %d = %s but the same error alone gives %s'
+                                                        % (bad, ob['batch_le'][bad], ob['cases'][bad]['le']))),
+                          {'instance': key, 'error': {'x': ob['cases'][bad]['x'], 'z': ob['cases'][bad]['z']},
+                           'what': 'batch row differs', 'stack': [[o['x'], o['z']] for o in ob['cases']]})
+        if ob.get('used_diff'):
+            d = ob['used_diff'][0]
+            rep.violation(dict(key, site='deform-after-use'),
+                          '%s: object queried (logical_errors/is_success) before deform() reports %s where a fresh deformed '
+                          'object reports %s' % (rec['tag'], d['used_then_deformed'], d['fresh']),
+                          {'instance': key, 'error': {'x': d['fresh']['x'], 'z': d['fresh']['z']},
+                           'what': 'history: construct; logical_errors(0); is_success(0); deform; query', 'detail': d})
         if 'brute' in rec['_obs']:
             nb = 4 ** rec['n']
             nbr += 1
